@@ -1188,7 +1188,7 @@ func (w *c13World) plan(op []string) (*c13Plan, error) {
 		return nil, fmt.Errorf("answer: no value of %s larger than %d bytes was found", resDef.res, c13Window)
 	}
 	switch op[4] {
-	case "plain", "cont", "gz", "salt", "saltgz":
+	case "plain", "cont", "gz", "salt", "saltgz", "gzall":
 	case "wrong", "null":
 		if inner != nil {
 			return nil, fmt.Errorf("bad shape token") // the wrappers assert nothing (known finding: they return tl.Object)
@@ -1367,6 +1367,11 @@ func c13Exec(op []string) string {
 		payload = c13Gzip(payload)
 	}
 	body := c13RpcResult(f.mid, payload)
+	if shape == "gzall" {
+		// the WHOLE message packed: gzip_packed{rpc_result{…}} (gzip_packed stands for any object; D35: the hints of a
+		// call that declares a vector were looked up from the first word of the body only)
+		body = c13Gzip(body)
+	}
 	if shape == "cont" {
 		peer.sendContainer(body)
 	} else {
@@ -1645,6 +1650,7 @@ func c13Judge(op []string, out string) string {
 		how := map[string]string{"plain": "as a plain rpc_result", "cont": "inside a msg_container", "gz": "gzip_packed",
 			"salt":   "after the first copy of the request was rejected with bad_server_salt",
 			"saltgz": "gzip_packed, after the first copy of the request was rejected with bad_server_salt",
+			"gzall":  "with the whole message gzip_packed (gzip_packed{rpc_result{answer}})",
 			"wrong":  "- replaced by a well-formed value of ANOTHER type (boolTrue; pong for a Bool method): the call must return an error",
 			"null":   "- replaced by null#56730bcc: the call must return an error"}[op[4]]
 		args := map[string]string{"z": "zero-valued", "p": "populated"}[op[2]]
@@ -1729,6 +1735,12 @@ func c13Gen(g *G) {
 		return t
 	}
 	shapes := []string{"cont", "gz", "salt", "saltgz"}
+	// D35: the whole message packed, for every method that declares a vector and a sample of the others
+	for i, n := range gen {
+		if w.methods[n].def.resTy.kind == "vector" || i%16 == 0 {
+			emit(n, "z", small(n), "gzall", kind(n), "whole-message-packed")
+		}
+	}
 	// (0) D32: every generated method answered with a well-formed value of another type, and with null: an error, no panic
 	for _, n := range gen {
 		emit(n, "z", small(n), "wrong", kind(n), "answer-of-another-type")
